@@ -7,8 +7,6 @@ import (
 	"flag"
 	"fmt"
 	"os"
-	"runtime/pprof"
-	"time"
 )
 
 func main() {
@@ -18,12 +16,6 @@ func main() {
 	child := flag.String("child", "", "C26 child mode: scenario spec file")
 	out := flag.String("out", "", "C26 child mode: result file")
 	flag.Parse()
-	if pf := os.Getenv("VERIF_PPROF"); pf != "" {
-		if f, err := os.Create(pf); err == nil {
-			_ = pprof.StartCPUProfile(f)
-			go func() { time.Sleep(100 * time.Second); pprof.StopCPUProfile(); f.Close() }()
-		}
-	}
 	if *child != "" {
 		runC26Child(*child, *out)
 		return
